@@ -70,10 +70,13 @@ translator:
 menu:
   page_size: 5
 """
-SYLLABLES = ["ja", "yi", "bi", "di", "go", "fu"]
+SYLLABLES = ["ja", "yi", "bi", "di", "go", "fu", "ka", "le", "mo", "nu", "pa", "re", "su", "te"]
 DICT_ROWS = [("甲", "ja", 100), ("乙", "yi", 100), ("丙", "bi", 100), ("丁", "di", 100), ("戊", "go", 100), ("己", "fu", 100),
              ("假", "ja", 50), ("以", "yi", 50), ("比", "bi", 50), ("地", "di", 50), ("高", "go", 50), ("福", "fu", 50),
-             ("甲乙", "ja yi", 10), ("丙丁", "bi di", 10), ("高福", "go fu", 10), ("甲乙丙", "ja yi bi", 5)]
+             ("甲乙", "ja yi", 10), ("丙丁", "bi di", 10), ("高福", "go fu", 10), ("甲乙丙", "ja yi bi", 5),
+             # eight more syllables: a sentence over all fourteen makes ONE commit write more than a dozen records
+             ("卡", "ka", 100), ("乐", "le", 100), ("墨", "mo", 100), ("奴", "nu", 100), ("怕", "pa", 100), ("热", "re", 100),
+             ("苏", "su", 100), ("特", "te", 100), ("咖", "ka", 40), ("模", "mo", 40)]
 DICT_YAML = ("---\nname: c11\nversion: \"1\"\nsort: by_weight\nuse_preset_vocabulary: false\n...\n\n"
              + "".join("%s\t%s\t%d\n" % r for r in DICT_ROWS))
 
@@ -139,6 +142,9 @@ def gen_history(rng, n_calls, reopen_bias=0.06):
         r = rng.random()
         if r < 0.50:      # type and commit
             word = "".join(rng.choice(SYLLABLES) for _ in range(rng.choice([1, 1, 2, 2, 3])))
+            if rng.random() < 0.08:
+                # a long sentence: one commit that writes many records (the phrase and every word it was composed of)
+                word = "".join(rng.sample(SYLLABLES, len(SYLLABLES)) + [rng.choice(SYLLABLES) for _ in range(rng.choice([0, 2, 4]))])
             if rng.random() < 0.3:
                 # a punctuation with several candidates stays in the composition: the commit then memorises the phrase before
                 # it and the phrase after it as two entries of ONE commit
